@@ -8,7 +8,9 @@ package lua
 
 import (
 	"fmt"
+	"reflect"
 	"sort"
+	"strings"
 )
 
 // ---------------------------------------------------------------------------------------------
@@ -55,7 +57,7 @@ func VerifUninstallStepHook() {
 
 type VerifFrame struct {
 	Idx, Pc, Base, LocalBase, ReturnBase, NArgs, NRet, TailCall int
-	IsG                                                        bool
+	IsG                                                         bool
 }
 
 type VerifSnap struct {
@@ -177,14 +179,14 @@ func VerifProtoDump(p *FunctionProto) string {
 // tables
 
 type VerifTableShape struct {
-	ArrayLen    int
-	ArrayNil    []bool
-	NKeys       int
-	KeysNil     int // entries of keys that are nil (none expected)
-	DictLen     int
-	StrDictLen  int
-	K2ILen      int
-	Consistent  bool
+	ArrayLen      int
+	ArrayNil      []bool
+	NKeys         int
+	KeysNil       int // entries of keys that are nil (none expected)
+	DictLen       int
+	StrDictLen    int
+	K2ILen        int
+	Consistent    bool
 	Inconsistency string
 }
 
@@ -321,17 +323,17 @@ func (v *VerifRegistry) Do(f func()) (overflow bool, other interface{}) {
 	f()
 	return
 }
-func (v *VerifRegistry) Push(x LValue)                        { v.r.Push(x) }
-func (v *VerifRegistry) Pop() LValue                          { return v.r.Pop() }
-func (v *VerifRegistry) Get(i int) LValue                     { return v.r.Get(i) }
-func (v *VerifRegistry) Set(i int, x LValue)                  { v.r.Set(i, x) }
-func (v *VerifRegistry) SetNumber(i int, x LNumber)           { v.r.SetNumber(i, x) }
-func (v *VerifRegistry) SetTop(i int)                         { v.r.SetTop(i) }
-func (v *VerifRegistry) Top() int                             { return v.r.Top() }
-func (v *VerifRegistry) CopyRange(regv, start, limit, n int)  { v.r.CopyRange(regv, start, limit, n) }
-func (v *VerifRegistry) FillNil(regm, n int)                  { v.r.FillNil(regm, n) }
-func (v *VerifRegistry) Insert(x LValue, reg int)             { v.r.Insert(x, reg) }
-func (v *VerifRegistry) Len() int                             { return len(v.r.array) }
+func (v *VerifRegistry) Push(x LValue)                       { v.r.Push(x) }
+func (v *VerifRegistry) Pop() LValue                         { return v.r.Pop() }
+func (v *VerifRegistry) Get(i int) LValue                    { return v.r.Get(i) }
+func (v *VerifRegistry) Set(i int, x LValue)                 { v.r.Set(i, x) }
+func (v *VerifRegistry) SetNumber(i int, x LNumber)          { v.r.SetNumber(i, x) }
+func (v *VerifRegistry) SetTop(i int)                        { v.r.SetTop(i) }
+func (v *VerifRegistry) Top() int                            { return v.r.Top() }
+func (v *VerifRegistry) CopyRange(regv, start, limit, n int) { v.r.CopyRange(regv, start, limit, n) }
+func (v *VerifRegistry) FillNil(regm, n int)                 { v.r.FillNil(regm, n) }
+func (v *VerifRegistry) Insert(x LValue, reg int)            { v.r.Insert(x, reg) }
+func (v *VerifRegistry) Len() int                            { return len(v.r.array) }
 func (v *VerifRegistry) Raw(i int) LValue {
 	if i < 0 || i >= len(v.r.array) {
 		return nil
@@ -426,3 +428,50 @@ func VerifShrinkRegistry(L *LState) {
 // VerifIsCurrentThread: the state executing a host function is the one the global state records
 // as running (coroutine.running/status are derived from that record).
 func VerifIsCurrentThread(L *LState) bool { return L.G.CurrentThread == nil || L.G.CurrentThread == L }
+
+// VerifResidue renders the part of a state's private bookkeeping that a completed outermost
+// protected call must leave exactly as it found it: every flag (bool field) of the LState and of
+// its call-frame stack - also flags this file does not know by name -, the counters of the stack
+// and the registry, which of the frame/upvalue/parent links are set, the identity of the main
+// loop, and the number of call-stack segments the stack still refers to beyond the one in use.
+// The harness compares the rendering after every run with the one taken when the state was new.
+func VerifResidue(L *LState) string {
+	var b strings.Builder
+	flags := func(prefix string, v reflect.Value, ints bool) {
+		t := v.Type()
+		for i := 0; i < v.NumField(); i++ {
+			f, name := v.Field(i), t.Field(i).Name
+			switch f.Kind() {
+			case reflect.Bool:
+				if name == "hasErrorFunc" {
+					continue // written, never read
+				}
+				fmt.Fprintf(&b, "%s%s=%v ", prefix, name, f.Bool())
+			case reflect.Int, reflect.Int8, reflect.Int16, reflect.Int32, reflect.Int64:
+				if ints {
+					fmt.Fprintf(&b, "%s%s=%d ", prefix, name, f.Int())
+				}
+			case reflect.Uint, reflect.Uint8, reflect.Uint16, reflect.Uint32, reflect.Uint64:
+				if ints {
+					fmt.Fprintf(&b, "%s%s=%d ", prefix, name, f.Uint())
+				}
+			}
+		}
+	}
+	flags("L.", reflect.ValueOf(L).Elem(), false)
+	fmt.Fprintf(&b, "L.stop=%d L.Parent=%v L.currentFrame=%v L.uvcache=%v L.Env-is-globals=%v L.mainLoop=%x ", L.stop, L.Parent != nil, L.currentFrame != nil, L.uvcache != nil, L.Env == L.G.Global, reflect.ValueOf(L.mainLoop).Pointer())
+	if sv := reflect.ValueOf(L.stack); sv.Kind() == reflect.Ptr && sv.Elem().Kind() == reflect.Struct {
+		flags("stack.", sv.Elem(), true)
+	}
+	if cs, ok := L.stack.(*autoGrowingCallFrameStack); ok {
+		n := 0
+		for i, seg := range cs.segments {
+			if seg != nil && i > int(cs.segIdx) {
+				n++
+			}
+		}
+		fmt.Fprintf(&b, "stack.segments-beyond-current=%d ", n)
+	}
+	fmt.Fprintf(&b, "reg.growBy=%d reg.maxSize=%d G.CurrentThread-is-main=%v", L.reg.growBy, L.reg.maxSize, L.G.CurrentThread == nil || L.G.CurrentThread == L.G.MainThread)
+	return b.String()
+}
